@@ -489,6 +489,7 @@ theorem reprAttrs_np (attrs : List RawAttr) (acc : Option IntTy) (h : ReprWellFo
       | notList => exact absurd rfl (h _ (by simp))
     | dw _ => unfold reprAttrs; exact ih' _
     | dwQualified _ _ => unfold reprAttrs; exact ih' _
+    | bare _ => unfold reprAttrs; exact ih' _
     | other => unfold reprAttrs; exact ih' _
 
 theorem Discriminant.parse_np (attrs : List RawAttr) (vs : List RawVariant) (h : ReprWellFormed attrs) :
